@@ -139,6 +139,32 @@ impl Oracle for C06Oracle {
             }
             _ => {}
         }
+        // (b') rebalancing must not undo a failover whose failure the broker still records: a proxy with a
+        // failed mark or a live failure report that held no master before balance_masters holds none after
+        if let (ROp::Balance { name }, Ok(_)) = (st.rop, st.res) {
+            if let (Some(pre_cl), Some(post_cl)) = (st.pre.clusters.get(name), st.post.clusters.get(name)) {
+                let members: BTreeSet<&String> = post_cl.nodes.iter().map(|n| &n.proxy_address).collect();
+                for a in members {
+                    if !(pre.failed_proxies.contains(a) || pre.failures.contains_key(a)) {
+                        continue;
+                    }
+                    let had = pre_cl.nodes.iter().any(|n| n.proxy_address == *a && n.is_master());
+                    let has = post_cl.nodes.iter().find(|n| n.proxy_address == *a && n.is_master());
+                    if let (false, Some(n)) = (had, has) {
+                        fail!(
+                            "C06:balance-made-failed-proxy-master",
+                            "balance_masters({}) made node {} of proxy {} master although the broker records its failure (failed mark: {}, live report: {}) and it held no master before",
+                            name,
+                            n.address,
+                            a,
+                            pre.failed_proxies.contains(a),
+                            pre.failures.contains_key(a)
+                        );
+                    }
+                    obs.class("balance-with-recorded-failure-in-cluster");
+                }
+            }
+        }
         let ROp::Failover { addr } = st.rop else { return Ok(()) };
         let Some((pc, ci, part)) = pre.find_chunk(addr) else {
             obs.class("failover:free-or-unknown-proxy");
